@@ -8,9 +8,10 @@ package main
 // therefore interpreted like any other code, may use the harness API
 // (solver-chosen failures and partial writes), and is part of the claim.
 //
-// A harness package that does not define the model function gets the
-// configured stub for the call if there is one, else the path ends as
-// UNSUPPORTED, exactly as before this file existed.
+// A harness package that does not define the model function gets whatever
+// was registered for the call before (ext_c18.go's "error" stubs), else the
+// configured stub if there is one, else the path ends as UNSUPPORTED,
+// exactly as before this file existed.
 
 import (
 	"go/token"
@@ -27,11 +28,19 @@ var harnessModels = map[string]string{
 	"encoding/json.Marshal": "verifJSONMarshal",
 }
 
-func harnessDispatch(key, model string) externalFn {
+func harnessDispatch(key, model string, prev externalFn) externalFn {
 	return func(fr *frame, args []value) value {
 		fn := fr.i.lp.harnessPkg.Func(model)
 		if fn == nil {
+			// not a harness with a file-system model: behave as if this file did
+			// not exist (ext_c18.go registers "error" stubs for some of the keys)
+			if prev != nil {
+				return prev(fr, args)
+			}
 			if st, ok := fr.i.lp.cfg.stubs[key]; ok && fr.fn != nil {
+				if st == "error" {
+					return extErrorStub(key)(fr, args)
+				}
 				return makeStub(fr.fn, st)(fr, args)
 			}
 			panic(unsupported{"no code for function: " + key + " (real I/O; the harness package defines no model " + model + ")"})
@@ -40,8 +49,12 @@ func harnessDispatch(key, model string) externalFn {
 	}
 }
 
+// This init must run after those of other ext_*.go files registering the
+// same keys (Go runs init functions of a package in file-name order:
+// ext_c18.go < ext_cache.go); whatever was registered before is kept as the
+// fallback for harness packages without a model.
 func init() {
 	for key, model := range harnessModels {
-		externals[key] = harnessDispatch(key, model)
+		externals[key] = harnessDispatch(key, model, externals[key])
 	}
 }
